@@ -445,6 +445,13 @@ impl BitVector {
             // Truncate
             self.len = new_len;
 
+            // Drop the blocks that no longer hold any valid bit so that `blocks()`
+            // never exposes stale data (invariant: unused bits are always 0)
+            let needed_blocks = (new_len + BITS_PER_BLOCK - 1) / BITS_PER_BLOCK;
+            if needed_blocks < self.blocks.len() {
+                self.blocks.resize(needed_blocks, 0)?;
+            }
+
             // Clear bits in the last partial block
             if new_len > 0 {
                 let last_block_index = (new_len - 1) / BITS_PER_BLOCK;
